@@ -178,6 +178,10 @@ def lake_build(targets):
     ok = p.returncode == 0
     if not ok and not fails:
         fails.append(('lake', 0, p.stdout[-2000:]))
+    if not ok and 'blfdriver' in targets and len(targets) > 1:
+        # a proof module may have failed while the driver itself builds: ask for the driver alone before giving the model up
+        if run(['lake', 'build', 'blfdriver'], cwd=LEAN).returncode == 0:
+            return ok, fails, p.stdout
     if not ok and 'blfdriver' in targets:
         # the executable model of this tree could not be built (a class it needs left the translator's grammar, ...): whatever binary
         # is lying around is the model of an OLDER tree and must not be consulted; the implementation-only oracles go on
@@ -329,6 +333,26 @@ def session(exe, lines, env=None, timeout=600, cwd=None):
     p = subprocess.run([exe] if isinstance(exe, str) else exe, input='\n'.join(lines) + '\n', stdout=subprocess.PIPE,
                        stderr=subprocess.PIPE, text=True, env=e, timeout=timeout, cwd=cwd)
     return p.stdout.split('\n')[:-1] if p.stdout.endswith('\n') else p.stdout.split('\n'), p.returncode, p.stderr
+
+
+def session_resilient(exe, lines, max_crashes=25, **kw):
+    """like session, but a harness process that dies on a request does not end the run: that request is repeated in a child
+    process (prefix `!`: its answer then says how it died) and the session continues behind it"""
+    sent = list(lines)
+    out = []
+    crashes = 0
+    rc, err = 0, ''
+    while len(out) < len(sent) and crashes <= max_crashes:
+        o, rc, err = session(exe, sent[len(out):], **kw)
+        out += o
+        if len(out) < len(sent):
+            crashes += 1
+            k = len(out)
+            if sent[k].startswith('!'):
+                out.append('crash status=unknown')
+            else:
+                sent[k] = '!' + sent[k]
+    return out, rc, err
 
 
 def psession(exe, lines, nproc=None, **kw):
